@@ -3099,8 +3099,13 @@ static void jdf_generate_startup_tasks(const jdf_t *jdf, const jdf_function_entr
         if(vl->expr->op == JDF_RANGE) {
             coutput("%s  for(this_task->locals.%s.value = %s = %s;\n",
                     indent(nesting), vl->name, vl->name, dump_expr((void**)vl->expr->jdf_ta1, &info1));
-            coutput("%s      this_task->locals.%s.value <= %s;\n",
-                    indent(nesting), vl->name, dump_expr((void**)vl->expr->jdf_ta2, &info1));
+            /* Handle both increasing and decreasing ranges, as the task counting code does */
+            coutput("%s      ((%s) >= 0) ?",
+                    indent(nesting), dump_expr((void**)vl->expr->jdf_ta3, &info1));
+            coutput(" (this_task->locals.%s.value <= %s) :",
+                    vl->name, dump_expr((void**)vl->expr->jdf_ta2, &info1));
+            coutput(" (this_task->locals.%s.value >= %s);\n",
+                    vl->name, dump_expr((void**)vl->expr->jdf_ta2, &info1));
             coutput("%s      this_task->locals.%s.value += %s, %s = this_task->locals.%s.value) {\n",
                     indent(nesting), vl->name, dump_expr((void**)vl->expr->jdf_ta3, &info1), vl->name, vl->name);
             nesting++;
